@@ -201,6 +201,9 @@ func Layer(r *ev.Run) {
 			class = "default-only"
 		}
 		clean := s%6 == 4
+		if clean && (s/6)%2 == 1 {
+			class = "default-only"
+		}
 		wrng := gen.New(r.Seed, fmt.Sprintf("c15my-%d-%d", s, rng.Int63()))
 		w := openWorld(r, wrng, s, class, clean, foreign)
 		if w == nil {
@@ -353,7 +356,15 @@ func judge(r *ev.Run, w *world, st *stmt, rp reply, events []cbEvent, orph [2]in
 	// ---- ordinary data only
 	if nPoison == 0 {
 		if nUnjudged > 0 {
+			// legacy form (inner envelope under a poison key without its container): not what poison.Create* make; counted only
 			r.Count("mysql_result_sets_not_judged", 1)
+			if rp.rows == len(st.rows) {
+				if len(per[0]) > 0 {
+					r.Count("mysql_legacy_raw_envelope_under_poison_key_delivered:alarmed", 1)
+				} else {
+					r.Count("mysql_legacy_raw_envelope_under_poison_key_delivered:silent", 1)
+				}
+			}
 			return
 		}
 		if len(events) > 0 {
